@@ -363,7 +363,7 @@ let ref_timer (c : case) : string * bool =
       match o with
       | OW8 (a, v) ->
         (match int_of_z a with
-         | 0xffff80 -> tcr := int_of_z v; if (int_of_z v) land 7 > 3 then dom := false; t := write_tcr_ref !t v
+         | 0xffff80 -> tcr := int_of_z v; t := write_tcr_ref !t v
          | 0xffff82 -> t := { !t with tcsr = v }
          | 0xffff84 -> t := { !t with tcora = v }
          | 0xffff86 -> t := { !t with tcorb = v }
